@@ -113,13 +113,13 @@ def theorem_report(pid):
     return ok, rep, p.stdout
 
 
-def audit_sources():
-    """grep the development for forbidden declarations."""
+def audit_sources(only=None):
+    """grep the development (or the given files of it) for forbidden declarations."""
     bad = []
     pat = re.compile(r'\b(Admitted|admit|Axiom|Axioms|Parameter|Parameters|Conjecture|Admit Obligations|'
                      r'bypass_check|Unset Guard Checking|Unset Positivity Checking|Unset Universe Checking|'
                      r'type-in-type|impredicative-set)\b')
-    for rel in vfiles():
+    for rel in (only if only is not None else vfiles()):
         with open(os.path.join(COQ, rel)) as f:
             txt = f.read()
         txt = re.sub(r'\(\*.*?\*\)', '', txt, flags=re.S)
